@@ -111,6 +111,35 @@ def preserve_finding():
         return True
 
 
+def exclude_finding():
+    import utype
+    from utype import Rule
+    from utype.parser.rule import LogicalType
+    from utype.utils.transform import type_transform
+    digits = Rule.annotate(str, constraints=dict(regex="[0-9]+"))
+    U = LogicalType.combine("|", Rule.annotate(dict, digits, Rule.annotate(int, constraints=dict(const=5))),
+                            Rule.annotate(dict, Decimal, Rule.annotate(str, constraints=dict(max_length=3))))
+    o = utype.Options(no_data_loss=True, invalid_keys="exclude")
+    r1 = type_transform({"007": 6, "a1": "5"}, U, o)
+    try:
+        return type_transform(r1, U, o) != r1
+    except Exception:
+        return True
+
+
+def union_shift_finding():
+    from utype import Rule, Lax
+    from utype.parser.rule import LogicalType
+    from typing import List
+    U = LogicalType.combine("|", Rule.annotate(list, float), Rule.annotate(frozenset, bool, constraints=dict(length=1)),
+                            Rule.annotate(int, constraints=dict(ge=Lax(3))))
+    r1 = U("false")
+    try:
+        return U(r1) != r1
+    except Exception:
+        return True
+
+
 def idem_suite(res, tier, seed):
     rng = random.Random(seed * 17 + 303)
     n = 6000 if tier == "quick" else 100000
@@ -168,7 +197,8 @@ def main(tier, seed):
     n = 3000 if tier == "quick" else 60000
     cases = [parsesuite.gen_case(rng) if i % 2 else parsesuite.gen_union_case(rng) for i in range(n)]
     parsesuite.run_suite(res, cases, "parse")
-    findings.replay_all(res, PID, {"C03-carry": carry_finding, "C03-and-hetero": and_finding, "C03-xor-output": xor_finding, "C03-preserve": preserve_finding})
+    findings.replay_all(res, PID, {"C03-carry": carry_finding, "C03-and-hetero": and_finding, "C03-xor-output": xor_finding, "C03-preserve": preserve_finding, "C03-exclude": exclude_finding,
+                                    "C03-union-stage-shift": union_shift_finding})
     return core.finish(res, "make -C coq Props/C03.vo && coqc (Print Assumptions audit)", "see suites", search=None,
                        level_note="lax validators: theorems on the translated source (Gen/Constraints.v). Idempotence of "
                                   "whole types (containers, unions, data classes) is NOT yet a theorem: it is carried by the "
